@@ -11,7 +11,8 @@ RULE = (
     "Hypothesis RuleBasedStateMachine. @initialize draws a structure (blow-up generator of C01: any crossing "
     "pattern, stems 1-4, many length-1 stems so that removals do remove) and builds the receiver from its BPSEQ "
     "text. Rules, one per public query/derivation: str, pairs, sequence, dot_bracket, fcfs, all_dot_brackets, "
-    "elements, without_pseudoknots, without_isolated - each on any live object (the source or any object derived "
+    "elements, without_pseudoknots, without_isolated, convert_to_dot_bracket(CBC); a further rule adds "
+    "a relettered TWIN (same pairing, other letters) as an independent live object - each on any live object (the source or any object derived "
     "from it). Oracle after every step: (1) the answer equals the answer of a FRESH object built from the "
     "receiver's snapshot text with only that one call; (2) invariant: every live object's text, pairs and entries "
     "still equal its snapshot; (3) semantics of both removals from an independent stem finder / decoder. A history "
@@ -25,7 +26,7 @@ ASSUMPTIONS = [
 ]
 
 METHODS = ["str", "pairs", "sequence", "dot_bracket", "fcfs", "all_dot_brackets", "elements",
-           "without_pseudoknots", "without_isolated"]
+           "without_pseudoknots", "without_isolated", "convert_cbc", "twin"]
 
 
 def _pairs_of_text(text):
@@ -53,6 +54,11 @@ def _call(obj, method):
         return [d.sequence, d.structure]
     if method == "fcfs":
         d = obj.fcfs
+        return [d.sequence, d.structure]
+    if method == "convert_cbc":
+        import pulp
+
+        d = obj.convert_to_dot_bracket(pulp.PULP_CBC_CMD(msg=False))
         return [d.sequence, d.structure]
     if method == "all_dot_brackets":
         return sorted([d.sequence, d.structure] for d in obj.all_dot_brackets)
@@ -87,6 +93,19 @@ class History:
         out = []
         recv = self.objects[idx]
         snap = self.snap[idx]
+        if method == "twin":
+            # a second, independent object with the same pairing but other letters enters the history: answers of
+            # either must not leak into the other (caches keyed by the pairing alone)
+            rot = {"A": "C", "C": "G", "G": "U", "U": "A"}
+            lines = []
+            for ln in snap.splitlines():
+                i, c, j = ln.split()
+                lines.append(f"{i} {rot.get(c.upper(), 'A')} {j}")
+            text = "\n".join(lines)
+            self.objects.append(self.BpSeq.from_string(text))
+            self.snap.append(text)
+            self.twins = getattr(self, "twins", 0) + 1
+            return self.invariant()
         if self.removed_on.get(idx):
             self.nontrivial = True
         fresh = self.BpSeq.from_string(snap)
@@ -120,7 +139,7 @@ class History:
                 self.removed_on[idx] = True
             self.objects.append(ans)
             self.snap.append(str(ans))
-        elif method == "dot_bracket" and ans != exp:
+        elif method in ("dot_bracket", "convert_cbc") and ans != exp:
             # tolerate a solver tie: both lossless and equally good
             ok = False
             try:
@@ -135,7 +154,7 @@ class History:
             if ok:
                 self.ties += 1
             else:
-                out.append(D("C12:dot_bracket:differs-from-fresh", f"after {self.steps}: {ans} vs fresh {exp}"))
+                out.append(D(f"C12:{method}:differs-from-fresh", f"after {self.steps}: {ans} vs fresh {exp}"))
         elif ans != exp:
             out.append(D(f"C12:{method}:differs-from-fresh", f"after {self.steps}: {str(ans)[:120]} vs fresh {str(exp)[:120]}"))
         out += self.invariant()
@@ -236,6 +255,8 @@ def run_shard(spec) -> ShardResult:
                     labs += [f"steps={min(len(self.h.steps), 8)}"]
                     if len(self.h.objects) > 1:
                         labs.append("derived-objects")
+                    if getattr(self.h, "twins", 0):
+                        labs.append("relettered-twin-object")
                     res.note_case(case, self.h.nontrivial, labs)
                     res.extra["steps"] = res.extra.get("steps", 0) + len(self.h.steps)
                     res.extra["solver_ties"] = res.extra.get("solver_ties", 0) + self.h.ties
